@@ -21,6 +21,11 @@ Fault injection (all deterministic data, part of the case):
   * ``budget``     max number of exchanges; exceeding raises BudgetExceeded, a
     BaseException no nfcpy handler can swallow ("unbounded loop" oracle).
 """
+import importlib
+import pkgutil
+import time as _time
+import types
+
 import nfc.clf
 import nfc.clf.device
 import nfc.tag
@@ -28,6 +33,32 @@ import nfc.tag
 
 class BudgetExceeded(BaseException):
     pass
+
+
+# ---- time passes: an exchange takes a millisecond, a timeout takes the time
+# the caller allowed for it (a real driver reports TimeoutError exactly then).
+# The tag modules see this clock through their ``time`` attribute, so that
+# retry decisions that depend on deadlines meet the durations they would meet
+# on a device.
+CLOCK = [0.0]
+
+
+def _install_clock():
+    shim = types.SimpleNamespace(
+        time=lambda: _time.time() + CLOCK[0],
+        monotonic=lambda: _time.monotonic() + CLOCK[0],
+        sleep=lambda d: CLOCK.__setitem__(0, CLOCK[0] + max(0.0, d)),
+        strftime=_time.strftime, localtime=_time.localtime,
+        gmtime=_time.gmtime)
+    for info in pkgutil.iter_modules(nfc.tag.__path__):
+        mod = importlib.import_module("nfc.tag." + info.name)
+        if getattr(mod, "time", None) is _time:
+            mod.time = shim
+    if getattr(nfc.tag, "time", None) is _time:
+        nfc.tag.time = shim
+
+
+_install_clock()
 
 
 ERR = {"timeout": nfc.clf.TimeoutError,
@@ -113,19 +144,25 @@ class TagDevice(nfc.clf.device.Device):
                 if rsp is None:
                     raise nfc.clf.TimeoutError("sim: no response")
                 return bytearray(rsp)
+        CLOCK[0] += 0.001
         if fault is not None and fault[1] == "cmd":
             self.xlog.append((idx, cmd, "ERR:" + fault[0], "cmd"))
+            if fault[0] == "timeout":
+                CLOCK[0] += timeout if timeout else 0.1
             raise ERR[fault[0]]("sim: injected %s (command lost)" % fault[0])
         rsp = None
         if cmd is not None and self.present and not self.tag.dead:
             rsp = self.tag.command(cmd, timeout)
         if fault is not None:
             self.xlog.append((idx, cmd, "ERR:" + fault[0], "rsp"))
+            if fault[0] == "timeout":
+                CLOCK[0] += timeout if timeout else 0.1
             raise ERR[fault[0]]("sim: injected %s (response lost)" % fault[0])
         if rsp is not None and self.tamper is not None:
             rsp = self.tamper(idx, cmd, bytes(rsp))
         self.xlog.append((idx, cmd, None if rsp is None else bytes(rsp), ""))
         if rsp is None:
+            CLOCK[0] += timeout if timeout else 0.1
             raise nfc.clf.TimeoutError("sim: no response")
         return bytearray(rsp)
 
